@@ -385,7 +385,9 @@ def transfer_col_references(table, ref_source):
     new = copy.copy(table)
     new._ast = Alias(
         new._ast,
-        uuid_map={uid: ref_source._cache.name_to_uuid[name] for uid, name in table._cache.uuid_to_name.items()},
+        # (hidden columns of `table` keep their identity)
+        uuid_map={uid: uid for uid in table._cache.cols}
+        | {uid: ref_source._cache.name_to_uuid[name] for uid, name in table._cache.uuid_to_name.items()},
     )
     new._cache = table._cache.update(new._ast)
     # The columns are shared with `ref_source` now, so the result counts as derived from
